@@ -22,5 +22,6 @@ cp $D/demo_test.go $PKG/zz_seed_demo_test.go
 go test -vet=off -count=1 -run 'Seed|Demo|seed|demo' ./$PKG/ 2>&1 | tail -4
 cd /; git -C /repo worktree remove --force $WT
 echo "--- check on /repo with the change applied"
+if [ -n "$(git -C /repo status --porcelain --untracked-files=no)" ]; then echo "REFUSING: /repo has uncommitted changes"; exit 2; fi
 git -C /repo apply $D/patch.diff && (cd /verif && ./bin/govc check -prop $P -no-evidence | grep -E "VIOLATION|^govc|UNSUP|KNOWN" | cut -c1-170)
 git -C /repo checkout -- .
